@@ -1,5 +1,6 @@
 // bounded-pkg: internal/holsterv4/collections
 // bounded-func: collections.(*PriorityQueue).{Push,Pop,Peek,Update,Remove} (assumed contracts over container/heap)
+// bounded-props: C03 C13 C14
 // bounded-bound: every sequence of up to 4 operations (whose preconditions hold) over 4 items with priorities in {0,1,2,3}, plus every insertion order of 5 distinct priorities followed by pops; heap shape checked after every step
 // bounded-bound-thorough: every sequence of up to 5 operations (whose preconditions hold) over 4 items with priorities in {0,1,2,3}, plus every insertion order of 6 distinct priorities followed by pops; heap shape checked after every step
 package collections
